@@ -9,4 +9,6 @@ if ! git -C /repo apply $REV "$PATCH"; then echo "patch does not apply" >&2; exi
 "$@"; RC=$?
 git -C /repo checkout -- . 
 git -C /repo clean -fdq -- src examples 2>/dev/null
+# the harness binaries were built against the patched tree: rebuild them against the restored one
+(cd /verif/sim && CARGO_NET_OFFLINE=true cargo build --release --offline >/dev/null 2>&1)
 exit $RC
